@@ -74,6 +74,29 @@ def minimise(desc, cls, still_fails, budget=80, wall_s=60.0):
             while i < len(cur[key]):
                 if not attempt(f"drop {key}[{i}]", lambda d, i=i, key=key: d[key].pop(i)):
                     i += 1
+    # 3b. what surrounded the run: driver utility, re-configuration, late class, user-side state
+    if cur.get("via"):
+        attempt("direct optimize() instead of the utility", lambda d: d.pop("via"))
+    if cur.get("history_config"):
+        attempt("no re-configuration", lambda d: d.pop("history_config"))
+    if isinstance(cur.get("task"), dict) and cur["task"].get("late"):
+        def early(d):
+            d["task"].pop("late")
+            d["task"]["cls"] = "SimTask"
+        attempt("task class defined up front", early)
+    if isinstance(cur.get("task"), dict) and isinstance(cur["task"].get("objective"), dict) \
+            and cur["task"]["objective"].get("user_state"):
+        def no_user_state(d):
+            for t in [d["task"]] + [h["task"] for h in d.get("history") or [] if isinstance(h.get("task"), dict)]:
+                if isinstance(t.get("objective"), dict):
+                    t["objective"].pop("user_state", None)
+                    t["objective"].pop("user_offset", None)
+        attempt("objective independent of user-side state", no_user_state)
+    for h_i, h in enumerate(cur.get("history") or []):
+        if isinstance(h, dict) and h.get("mode") not in (None, "serial"):
+            attempt(f"history[{h_i}] serial", lambda d, h_i=h_i: (d["history"][h_i].pop("mode"), d["history"][h_i].pop("workers", None)))
+    if cur.get("debug"):
+        attempt("debug off", lambda d: d.__setitem__("debug", False))
     # 4. configuration
     cfg = cur.get("config")
     if isinstance(cfg, dict):
